@@ -305,6 +305,7 @@ func init() {
 
 func runC01(r *Runner, g *Gen, tier string) string {
 	n := scale(tier, 4000, 300000)
+	g.ptrSlices = true // pointers to slices under the proto options too (the empty pointee is finding F13)
 	for i := 0; i < n; i++ {
 		cfg := g.pickCfg()
 		t, v := g.sample(cfg, 3)
@@ -356,6 +357,10 @@ func runC01(r *Runner, g *Gen, tier string) string {
 			continue
 		}
 		r.Do(codecOp("rt", cfg, t, "", (&Val{K: "r", L: append([]*Val{m}, zeroVal(t).L[1:]...)}).Sexp()), len(m.M) > 0, "rt.wide-keys")
+	}
+	// pointers that only the decoded slice keeps alive: still there after garbage collections
+	for _, k := range []string{"int64", "bool", "str", "struct"} {
+		r.Do(L(A("gcptrs"), A(k), A(fmt.Sprint(scale(tier, 3000, 20000)))), true, "gcptrs")
 	}
 	// maps with pointer keys (identities, outside the value model): several entries, several decodes
 	for _, n := range []int{1, 2, 3, 7, 20} {
@@ -410,6 +415,17 @@ func (g *Gen) twiceStruct() *TyDef {
 
 func runC02(r *Runner, g *Gen, tier string) string {
 	n := scale(tier, 4000, 300000)
+	// the null types (also interned null.String): omitted exactly when invalid, written even when empty
+	for i := 0; i < scale(tier, 400, 30000); i++ {
+		flags := g.pickCfg()
+		t := g.presenceStruct(1)
+		b := 20
+		v := g.Value(t, &b)
+		if knownShape(flags, t, false) || multiEntryMaps(v) {
+			continue
+		}
+		r.Do(codecOp("enc", "(cfg "+flags+" null)", t, "", v.Sexp()), true, "enc.null")
+	}
 	for i := 0; i < scale(tier, 250, 20000); i++ {
 		flags := g.pickCfg()
 		t := g.twiceStruct()
@@ -652,6 +668,11 @@ func runC09(r *Runner, g *Gen, tier string) string {
 			// (a re-used variable), the data says absent for some of them
 			prior := g.Value(t, &b)
 			r.Do(codecOp("decm", cfg, t, "", absentEntries(g, t, prior).Sexp(), prior.Sexp()), true, "decm.absent-over-present")
+		}
+		if i%6 == 1 {
+			// present-but-empty overwrites: the target holds non-empty values, the data says "present, empty"
+			prior := g.Value(t, &b)
+			r.Do(codecOp("decm", cfg, t, "", presentButEmpty(t).Sexp(), prior.Sexp()), true, "decm.empty-over-present")
 		}
 		if i%5 == 0 {
 			// pointers to null values with VALID pointees (an invalid one is the pointer-to-pointer finding F03):
